@@ -553,6 +553,10 @@ FIXED = [
 def generate(rng, tier):
     k = 1 if tier == "quick" else 20
     cases = [json.loads(json.dumps(c)) for c in FIXED]
+    # add_file: every refusal of a name against every refusal of a content (their order is part of the model)
+    for nm in ("", ".", "a\x00b", "\x00", "..", "f.dat", "Data", "Type"):
+        for content in (None, [], [120, 0]):
+            cases.append({"kind": "blob", "bytes": content, "name": cps(nm)})
     for _ in range(520 * k):
         cases.append(gen_num(rng))
     for _ in range(150 * k):
